@@ -60,6 +60,16 @@ func (c *Ctx) wf(v cty.Value, where string) {
 	}
 }
 
+// wfFrom: as wf, but only when the input the value was computed from is well-formed itself
+// (generated inputs may hold the equal-but-differently-hashed set members of KF-C03-1)
+func (c *Ctx) wfFrom(in, out cty.Value, where string) {
+	if cty.VerifWellFormed(in) != nil {
+		c.Count("wf_skipped_ill_formed_input")
+		return
+	}
+	c.wf(out, where)
+}
+
 // addOp runs op on args and records the correspondence case.
 func (c *Ctx) addOp(class, op string, args []cty.Value, nontrivial bool) (cty.Value, bool) {
 	ret, p, stable := stableOp(op, args)
